@@ -2,7 +2,9 @@
  *
  * job lines:
  *   file <blob>                   state: the complete new file B
- *   case mark=<+|0 per chunk> limit=<n> [noscan=1] [feed=0]
+ *   case mark=<+|0|! per chunk> limit=<n> [noscan=1] [feed=0] [fsrc=<blob>]
+ *        '!' = failed: after scan and reset, zck_copy_chunks from the source fsrc (written by the reference writer: it
+ *        lists exactly the '!' chunks with their digests and sizes, but holds other bytes), which leaves them failed
  * flow per case (public API only): the target gets B's header and exactly the chunks marked '+' (zeros elsewhere);
  * zck_init_read, zck_find_valid_chunks, zck_reset_failed_chunks (skipped with noscan=1, where everything is missing),
  * flags read back, zck_get_missing_range(limit), zck_get_range_count, zck_get_range_char.  With feed=1 the payload of
@@ -12,7 +14,7 @@
  */
 #include "drv.h"
 
-typedef struct { blob *file; char *mark; int limit, noscan, feed; } gcase;
+typedef struct { blob *file; char *mark; int limit, noscan, feed; blob fsrc; } gcase;
 typedef struct { gcase *cases; int n; } gctx;
 
 static void run_one(int idx, FILE *out, void *vctx) {
@@ -44,6 +46,14 @@ static void run_one(int idx, FILE *out, void *vctx) {
         zck_reset_failed_chunks(zck);
     }
     fprintf(out, " scan=%d", scan);
+    zckCtx *fs = NULL;
+    int fsfd = -1;
+    if(k->fsrc.n) {
+        fsfd = tmp_file_with("rf", k->fsrc.p, k->fsrc.n);
+        fs = zck_create();
+        if(!zck_init_read(fs, fsfd)) die("ranges: fsrc does not open: %s", zck_get_error(fs));
+        fprintf(out, " fcopy=%d", (int)zck_copy_chunks(fs, zck));
+    }
     dump_flags(zck, out, "flags");
     zckRange *range = zck_get_missing_range(zck, k->limit);
     if(!range) { fprintf(out, " range=NULL\n"); zck_free(&zck); return; }
@@ -99,6 +109,7 @@ static void run_one(int idx, FILE *out, void *vctx) {
     free(s);
     zck_range_free(&range);
     zck_free(&zck);
+    if(fs) { zck_free(&fs); real_close(fsfd); }
     real_close(fd);
     blob_free(&tgt);
 }
@@ -118,7 +129,7 @@ int cmd_ranges(FILE *job, FILE *out) {
         else if(!strcmp(t[0], "case")) {
             if(!file) die("ranges: case before file");
             if(c.n >= cap) { cap = cap ? cap * 2 : 1024; c.cases = realloc(c.cases, cap * sizeof *c.cases); }
-            gcase k = {file, strdup(kv(t, n, "mark", "")), (int)kvi(t, n, "limit", -1), (int)kvi(t, n, "noscan", 0), (int)kvi(t, n, "feed", 1)};
+            gcase k = {file, strdup(kv(t, n, "mark", "")), (int)kvi(t, n, "limit", -1), (int)kvi(t, n, "noscan", 0), (int)kvi(t, n, "feed", 1), blob_arg(kv(t, n, "fsrc", "-"))};
             c.cases[c.n++] = k;
         } else die("ranges: bad line %s", t[0]);
         free(t);
